@@ -89,26 +89,36 @@ func init() {
 			for j := range durs {
 				durs[j] = time.Duration([]int64{0, 0, 100, 700}[r.Intn(4)]) * u
 			}
+			perm := r.Perm(6)
 			var lines []any
 			lines = append(lines, M{"ev": "Config", "cfg": c, "unit_ns": unitNs, "maxRetries": maxRetries})
 			synctest.Test(t, func(t *testing.T) {
-				b := retrypolicy.Builder[string]().WithMaxRetries(maxRetries)
+				b := retrypolicy.Builder[string]()
+				// the configuration calls in a random order: none of them may depend on what was called before
+				steps := []func(){func() { b.WithMaxRetries(maxRetries) }}
 				switch c.Kind {
 				case "fixed":
-					b.WithDelay(time.Duration(c.D) * u)
+					steps = append(steps, func() { b.WithDelay(time.Duration(c.D) * u) })
 				case "backoff":
-					b.WithBackoffFactor(time.Duration(c.D)*u, time.Duration(c.Maxd)*u, float32(c.Fp)/float32(c.Fq))
+					steps = append(steps, func() {
+						b.WithBackoffFactor(time.Duration(c.D)*u, time.Duration(c.Maxd)*u, float32(c.Fp)/float32(c.Fq))
+					})
 				case "random":
-					b.WithRandomDelay(time.Duration(c.Dmin)*u, time.Duration(c.Dmax)*u)
+					steps = append(steps, func() { b.WithRandomDelay(time.Duration(c.Dmin)*u, time.Duration(c.Dmax)*u) })
 				}
 				if c.Jit != 0 {
-					b.WithJitter(time.Duration(c.Jit) * u)
+					steps = append(steps, func() { b.WithJitter(time.Duration(c.Jit) * u) })
 				}
 				if c.Jfp != 0 {
-					b.WithJitterFactor(float32(c.Jfp) / 100)
+					steps = append(steps, func() { b.WithJitterFactor(float32(c.Jfp) / 100) })
 				}
 				if c.Maxdur != 0 {
-					b.WithMaxDuration(time.Duration(c.Maxdur) * u)
+					steps = append(steps, func() { b.WithMaxDuration(time.Duration(c.Maxdur) * u) })
+				}
+				for _, j := range perm {
+					if j < len(steps) {
+						steps[j]()
+					}
 				}
 				fcall := 0
 				lastFv := int64(-1)
